@@ -140,9 +140,45 @@ func c07GrossOverflow(w *core.WorkerCtx, report []string) {
 	w.R.Sample(5, map[string]any{"witness": desc, "checkpointed": len(n.Prev.Stored)})
 }
 
+// c07HeavyData: the vertices below the cut carry large contracts (about 13 MB in one truncation): every one of them must
+// come back from the storage afterwards.
+func c07HeavyData(w *core.WorkerCtx) {
+	rng := core.Rand(w.Seed, "C07heavy")
+	desc := "c07 heavy data: 210 vertices with 64 KiB contracts, 1030 light vertices on top, truncation, every vertex read back"
+	world := ledger.NewWorld(rng, w.R, []string{"C07"}, allSnapOracles, desc)
+	defer world.Close()
+	d, err := ledger.Setup(world, ledger.Profile{Nodes: 1, Users: 4, SupplyClass: 0, Delivery: "lockstep"})
+	if err != nil {
+		w.R.Inconc("heavy data setup failed: " + err.Error())
+		return
+	}
+	n := world.Nodes[0]
+	u := world.Users
+	world.Quiet = true
+	blob := make([]byte, 64<<10)
+	for i := 0; i < 210; i++ {
+		rng.Read(blob[:64])
+		t := world.NewTrx(u[0], u[1+i%3].Addr, spice.Melange{SupplementaryCurrency: uint64(i % 3)}, append([]byte{}, blob...))
+		world.Propose(n, &t, "heavy")
+	}
+	for i := 0; i < 1030; i++ {
+		t := world.NewTrx(u[0], u[1+i%3].Addr, spice.Melange{SupplementaryCurrency: uint64(1 + i%9)}, nil)
+		world.Propose(n, &t, "grow")
+	}
+	world.Quiet = false
+	world.Observe(n, ledger.OpInfo{Kind: "milestone", OK: true})
+	world.TruncateChecked(n, d, false)
+	world.NontrivFor("C07", "heavy-data")
+	w.R.Count("c07_heavy_data_scenarios", 1)
+	w.R.Sample(5, map[string]any{"scenario": desc, "checkpointed": len(n.Prev.Stored)})
+}
+
 func c07Worker(w *core.WorkerCtx) {
 	if w.Batch == 3 {
 		c07GrossOverflow(w, []string{"C07"})
+	}
+	if w.Batch == 0 {
+		c07HeavyData(w)
 	}
 	if w.Batch == 0 {
 		c07Witness(w)
@@ -239,7 +275,7 @@ func init() {
 	core.Register(&core.Check{
 		Spec: core.Spec{
 			Prop:        "C07",
-			Rule:        "Ledgers of 1001-1400 vertices (single-node chains; wide DAGs from 2-3 nodes with lagging exchange; several tips through forged side branches; valid, all-funds, boundary and overdrawing transfers) are truncated through the hook that calls the real truncate, once or repeatedly (>= 1010 vertices in between), optionally racing with concurrent proposals. Around every truncation: per-tip reference balances and, single-tipped, the node's own CalculateBalance answers are identical before/after; every vertex and transaction ever seen confirmed is read back by hash with identical fields and still verifies; re-submission of checkpointed vertices/transactions (same vertex, same transaction, re-wrapped by another sealer) is refused; checkpoint funds per address equal the big-integer net flow of exactly the stored vertices; stored set only grows, nothing lost, nothing both live and stored; one scenario cancels the first truncation in the middle of its persisting walk (a context that fires once m more vertices are in the storage) and demands that the interrupted attempt and every later attempt (which the code refuses) stay transparent in the same sense; afterwards hostile traffic runs under the C01/C02/C03/C09 oracles. Non-trivial = every truncation and every lookup/re-offer after it; distinct by (nodes, tips, live bucket, prior checkpoint, moved bucket, race).",
+			Rule:        "Ledgers of 1001-1400 vertices (single-node chains; wide DAGs from 2-3 nodes with lagging exchange; several tips through forged side branches; valid, all-funds, boundary and overdrawing transfers) are truncated through the hook that calls the real truncate, once or repeatedly (>= 1010 vertices in between), optionally racing with concurrent proposals. Around every truncation: per-tip reference balances and, single-tipped, the node's own CalculateBalance answers are identical before/after; every vertex and transaction ever seen confirmed is read back by hash with identical fields and still verifies; re-submission of checkpointed vertices/transactions (same vertex, same transaction, re-wrapped by another sealer) is refused; checkpoint funds per address equal the big-integer net flow of exactly the stored vertices; stored set only grows, nothing lost, nothing both live and stored; fixed scenarios: the side-tip and the gross-flow witnesses of the known findings, a truncation that moves about 13 MB of contracts in one go; one scenario cancels the first truncation in the middle of its persisting walk (a context that fires once m more vertices are in the storage) and demands that the interrupted attempt and every later attempt (which the code refuses) stay transparent in the same sense; afterwards hostile traffic runs under the C01/C02/C03/C09 oracles. Non-trivial = every truncation and every lookup/re-offer after it; distinct by (nodes, tips, live bucket, prior checkpoint, moved bucket, race).",
 			Assumptions: []string{ledgerAssume, "the cut position is what the real code picks (1000th visited ancestor of a map-order tip); the workload varies ledger length and shape around it"},
 			MinEvals:    500, MinNontriv: 3,
 			MinCounters: map[string]int{"c07_truncations": 2, "c07_vertices_checkpointed": 1},
